@@ -102,7 +102,7 @@ var containers = []containerKind{
 			d, _ := gen.BuildPNG(before, t, after)
 			return d
 		}},
-	{name: "CR3", imageType: "image/x-canon-cr3", nSurround: 9,
+	{name: "CR3", imageType: "image/x-canon-cr3", nSurround: 12,
 		entries: []entryPoint{{"imagemeta.Decode", imagemeta.Decode}, {"imagemeta.DecodeCR3", imagemeta.DecodeCR3}},
 		build: func(rec *gen.Rec, lay gen.Layout, bo binary.ByteOrder, s int) *gen.Doc {
 			return gen.EncodeBoxes(gen.CR3(gen.CR3FromRecord(rec, lay, bo), s))
